@@ -117,7 +117,7 @@ def all_masks(ny, N):
 class Filtered:
     """one call of the real filter and array views of its output"""
 
-    def __init__(self, spec, m, data_level, mask, N, dev, rescale, tv, via="kalman_filter", **kw):
+    def __init__(self, spec, m, data_level, mask, N, dev, rescale, tv, via="kalman_filter", extra=None, **kw):
         span = START >> (START + N - 1)
         self.span = span
         db = ir.Databox()
@@ -127,6 +127,8 @@ class Filtered:
         if tv is not None:
             for n, v in tv.items():
                 db[n] = ir.Series(start=START, values=np.array(v, dtype=float).reshape(-1, 1))
+        for n, v in (extra or {}).items():
+            db[n] = ir.Series(start=START, values=np.array(v, dtype=float).reshape(-1, 1))
         self.db = db
         with contextlib.redirect_stdout(io.StringIO()):
             self.out, self.info = m.kalman_filter(db, span, return_info=True, deviation=dev, rescale_variance=rescale,
